@@ -10,13 +10,15 @@ U_q == {
   R("r3", <<a, d, SEP, TOKEN>>, <<None>>, <<"x">>, {"ANY"}, "n2"),
   R("r4", <<a, d, b>>, <<>>, <<>>, {"HEAD"}, ""),
   R("r5", <<TOKEN, SEP, b>>, <<None>>, <<"z">>, {"GET"}, ""),
-  R("r7", <<TOKEN>>, <<"int(None)">>, <<"n">>, {"GET"}, "")
+  R("r7", <<TOKEN>>, <<"int(None)">>, <<"n">>, {"GET"}, ""),
+  \* two continuations of one wildcard that differ right after it (the wildcard node holds no route itself)
+  R("r8", <<a, d, SEP, TOKEN, SEP, e>>, <<None>>, <<"x">>, {"GET"}, "n3"),
+  R("r12", <<a, d, SEP, TOKEN, b>>, <<None>>, <<"x">>, {"GET"}, "")
 }
 H_q == { R("h1", <<a, d>>, <<>>, <<>>, {}, ""), R("h2", <<a>>, <<>>, <<>>, {}, ""), R("h3", <<a, d, SEP, TOKEN>>, <<None>>, <<"x">>, {}, "") }
-A_q == {a, b, d, SEP, one, TOKEN}
+A_q == {a, b, d, e, SEP, one, TOKEN}
 \* thorough universe: filters (int, float, re, path), anonymous wildcard, wildcard inside a segment, two rules on one pattern
 U_t == U_q \cup {
-  R("r8", <<a, d, SEP, TOKEN, SEP, e>>, <<None>>, <<"x">>, {"GET"}, "n3"),
   R("r9", <<p, SEP, TOKEN, SEP, e>>, <<"path(/e)">>, <<"q">>, {"GET"}, ""),
   R("r10", <<p, SEP, TOKEN>>, <<"path()">>, <<"">>, {"POST"}, ""),
   R("r11", <<a, TOKEN, b>>, <<"re([a-z]+)">>, <<"w">>, {"GET"}, "")
